@@ -378,6 +378,73 @@ theorem C17_mount_content_partial (h : Host) (cfg : Cfg) (hwf : HostWF h) (wf : 
 theorem C17_put_bytes (h : Host) (p : Plan) :
     putBytes h p = (p.files.map fun f => (srcContent h f.2).length).sum := rfl
 
+/-- **output equals tree, without `NoCollide`** — what exactly `Copy` saves when mounted content and
+host content claim the same output path. Under the other hypotheses, whenever `Copy` succeeds there
+are the scan's plan and the tree `t0` of the mounted content (the loaded manifest fragments,
+characterised by `C17_mount_content_partial`) such that
+ (1) every regular file `Shows` derives at `d` with host bytes `c` is saved at `d` as
+     `overlay (t0.get d) c`: `c` itself if the mounted content has nothing at `d`; `c` followed by
+     the tail of the longer mounted file if it has a file there (the copier opens the destination
+     without truncation); the mounted directory if it has a directory there, which happens only
+     for `c = []`;
+ (2) every directory `Shows` derives at `d ≠ []` exists unless the mounted content has a *file* at
+     `d` (then that file stays), and an empty one gets `d/.keep = overlay (t0.get (d/.keep)) []`;
+ (3) everything else in the saved tree is what the mounted content has there. -/
+theorem C17_output_equals_tree_general (h : Host) (cfg : Cfg) (hwf : HostWF h) (wf : CfgWF h cfg)
+    (hout : h.get cfg.hostOut = some .dir) (hs : supported cfg = true) (hx : InOut cfg cfg.ctrOut)
+    (hdirect : Direct h cfg) (fuel : Nat) (tree : Tree) (hcopy : copy h cfg fuel = .ok tree) :
+    ∃ plan t0, scan h cfg fuel = .ok plan ∧ loadFrags [] plan.frags = some t0 ∧
+      (∀ d s c, Shows h cfg d s → nodeAt h cfg s = some (.file c) →
+        tree.get d = overlay (t0.get d) c ∧ (t0.get d = some .dir → c = [])) ∧
+      (∀ d s, Shows h cfg d s → nodeAt h cfg s = some .dir → d ≠ [] →
+        tree.get d = (if t0.get d = none then some .dir else t0.get d) ∧
+        (h.children (hostPath cfg s) = [] → tree.get (d ++ [".keep"]) = overlay (t0.get (d ++ [".keep"])) [])) ∧
+      (∀ x e, tree.get x = some e →
+        (∃ c, planned h plan.files x = some c) ∨ (x ∈ plan.dirs ∧ t0.get x = none ∧ e = .dir) ∨ t0.get x = some e) := by
+  unfold copy at hcopy
+  obtain ⟨plan, hscan, hrun⟩ := bind_eq_ok _ _ _ hcopy
+  have hsh := scan_shape h cfg hwf hs wf.real fuel plan hscan
+  obtain ⟨t0, hload, hget⟩ := runPlan_ok_spec h plan hsh tree hrun
+  refine ⟨plan, t0, hscan, hload, ?_, ?_, ?_⟩
+  · intro d s c hshow hnode
+    have hmem := (scan_complete h cfg hwf wf hout hdirect hx fuel plan hscan d s hshow).1 c hnode
+    have hp : planned h plan.files d = some c := by
+      rw [planned_of_mem h plan.files hsh.nodupFiles _ hmem]
+      simp only [srcContent]
+      have : h.get (hostPath cfg s) = some (.file c) := hnode
+      rw [this]
+    obtain ⟨h1, h2⟩ := hget d
+    rw [hp] at h1
+    exact ⟨h1, h2 c hp⟩
+  · intro d s hshow hnode hne
+    obtain ⟨hd, hk⟩ := (scan_complete h cfg hwf wf hout hdirect hx fuel plan hscan d s hshow).2 hnode hne
+    constructor
+    · have h1 := (hget d).1
+      rw [planned_none_of_not_mem h plan.files d (hsh.disjoint d hd)] at h1
+      simp only [hd, true_and] at h1
+      exact h1
+    · intro hempty
+      have hmem := hk hempty
+      have hp : planned h plan.files (d ++ [".keep"]) = some [] := by
+        rw [planned_of_mem h plan.files hsh.nodupFiles _ hmem]; rfl
+      have h1 := (hget (d ++ [".keep"])).1
+      rw [hp] at h1
+      exact h1
+  · intro x e hx'
+    have h1 := (hget x).1
+    cases hp : planned h plan.files x with
+    | some c => exact Or.inl ⟨c, rfl⟩
+    | none =>
+      rw [hp] at h1
+      simp only at h1
+      rw [h1] at hx'
+      split at hx'
+      · rename_i hc
+        right; left
+        simp only [Option.some.injEq] at hx'
+        exact ⟨hc.1, hc.2, hx'.symm⟩
+      · right; right; exact hx'
+
 /-- the full statement: the same for every host tree, without `Direct` -/
 def C17_output_equals_tree_Full : Prop :=
   ∀ (h : Host) (cfg : Cfg) (fuel : Nat) (plan : Plan) (t0 : Tree), HostWF h → CfgWF h cfg →
